@@ -468,7 +468,7 @@ def build_variants(res, program):
     ref_state = model_state(ref.model)
     check_topological(res, ref, ref.model, program, "fresh build")
     named = all(it.get("named", True) for it in program["items"])
-    for variant in ("sinks", "reversed", "copy", "twice"):
+    for variant in ("sinks", "reversed", "copy", "twice", "grow", "copy_twice"):
         b = programs.Built(program, build=False)
         used = set()
         for it in b.items:
@@ -483,6 +483,46 @@ def build_variants(res, program):
             objs = objs[::-1]
         elif variant == "twice":
             objs = objs + objs
+        if variant == "grow":
+            # lsl.Model(nodes_and_vars) with the default grow=True
+            try:
+                m = lsl.Model(objs, to_float32=program.get("to_float32", True))
+            except Exception as e:
+                res.violation("structure", "variant-grow-raises", {"program": program}, f"lsl.Model(objects) failed: {type(e).__name__}: {e} ({program['items']})")
+                continue
+            b.model = m
+            res.transitions += 1
+            res.outcome("variant", variant, len(m.nodes))
+            check_structure(res, b, m, "Model(objects, grow=True)", program)
+            if named and sorted(m.nodes) == ref_names and model_state(m) != ref_state:
+                res.violation("structure", "variant-grow-state", {"program": program}, f"lsl.Model(objects) gives a different state than GraphBuilder ({program['items']})")
+            continue
+        if variant == "copy_twice":
+            # build_model(copy=True) must leave the user's objects as they were: a second
+            # copy-build from the same builder content must work and agree
+            def shape(objs):
+                out = []
+                for o in objs:
+                    ns = o.nodes if isinstance(o, lsl.Var) else [o]
+                    out.append(tuple((n.name, tuple(i.name for i in n.inputs), tuple(sorted((k, i.name) for k, i in n.kwinputs.items()))) for n in ns))
+                return out
+            gb.add(*objs)
+            before = shape(objs)
+            try:
+                m1 = gb.build_model(copy=True)
+                mid = shape(objs)
+                gb2 = lsl.GraphBuilder(to_float32=program.get("to_float32", True)).add(*objs)
+                m2 = gb2.build_model(copy=True)
+            except Exception as e:
+                res.violation("structure", "copy-build-not-repeatable", {"program": program}, f"second build_model(copy=True) from the same objects failed: {type(e).__name__}: {e} ({program['items']})")
+                continue
+            res.transitions += 2
+            res.outcome("variant", variant, len(m2.nodes))
+            if named and mid != before:
+                res.violation("structure", "copy-build-mutates-originals", {"program": program}, f"build_model(copy=True) changed the inputs of the user's objects ({program['items']})")
+            if model_state(m1) != model_state(m2):
+                res.violation("structure", "copy-build-not-repeatable", {"program": program}, f"two copy-builds from the same objects differ ({program['items']})")
+            continue
         gb.add(*objs)
         m = gb.build_model(copy=(variant == "copy"))
         if variant == "copy":
@@ -597,6 +637,26 @@ def run_bad_graphs(res):
         return lsl.GraphBuilder().add(lsl.Calc(f, a, _name="c")).build_model()
 
     expect_reject("node-already-in-a-model", second_model)
+
+    def rejected_build_harmless():
+        a = lsl.Value(("in", 0), _name="a")
+        c0 = lsl.Calc(f, a, _name="c0")
+        first = lsl.GraphBuilder().add(c0).build_model()
+        keep.append(first)
+        before = structure(first)
+        try:
+            lsl.GraphBuilder().add(lsl.Calc(f, a, _name="c")).build_model()
+        except Exception:
+            pass
+        res.transitions += 1
+        res.executions += 1
+        a.value = ("in", 1)
+        ok = structure(first) == before and c0.value == ("f", (("in", 1),)) and not c0.outdated
+        res.outcome("rejected-build-harmless", ok)
+        if not ok:
+            res.violation("bad_graphs", "rejected-build-corrupts-existing-model", {"graph": "a -> c0 in model A; build of Calc(f, a) rejected; a.value = 1"}, f"after a rejected build that shared node 'a' with an existing model, the existing model no longer propagates updates (c0 = {c0.value}, outdated={c0.outdated}) or its structure changed")
+
+    rejected_build_harmless()
 
     def same_twice():
         a = lsl.Var(1, name="a")
